@@ -2,7 +2,8 @@
 from .common import jobs_for
 LEVEL = 'proof'
 LEVEL_TEXT = 'the real constructors of all 9 grid classes are traced in both forms (symbolic face arrays; symbolic N and L) and the full representation invariant well_formed(mesh) is proved field by field for a symbolic index; cellvolume is proved equal to the geometric cell volume per cell and positive; cell_numbers is proved to be the C-order cell index'
-LEVEL_NOTE = 'sum of cell volumes = domain volume follows from the per-cell clause by telescoping (lemma, DESIGN 2.5) and is not machine-checked here; corners/edges bookkeeping arrays are covered by the bounded differential stand-in only; cos uninterpreted with monotonicity on [0,pi]; SphericalGrid3D per-cell volume is a recorded finding'
+LEVEL_NOTE = 'sum of cell volumes = domain volume follows from the per-cell clause by telescoping (Lean lemma telescope); the corners/edges bookkeeping arrays (mixed basic/advanced indexing) are covered by a bounded stand-in only (mesh.corners_edges/..., labelled bounded); cos uninterpreted with monotonicity on [0,pi]; SphericalGrid3D per-cell volume is a recorded finding'
+NOT_MACHINE_CHECKED = ['sum of the cell volumes = domain volume: telescoping of the proved per-cell closed forms (Lean lemma telescope), correspondence by inspection', 'cos is uninterpreted: the geometric volume is stated with the same cos applications']
 MODULES = ['contracts.mesh']
 TRUSTED = ['A1', 'A2', 'A5', 'A6', 'UF']
 
